@@ -79,9 +79,20 @@ def int_text(rng, w, cls=None, lo=None, hi=None):
 
 def str_text(rng, w, cls=None):
     """printable ASCII, first and last character non-blank; '' never (that is the blank class)"""
-    cls = cls or rng.choice(["full", "short", "one", "inner", "quote"])
+    cls = cls or rng.choice(["full", "short", "one", "inner", "quote", "full", "short", "inner", "digits", "date"])
     if cls == "one" or w == 1:
         return rng.choice(PRINTABLE), "one"
+    if cls == "digits":
+        # free text that happens to look like a number
+        return "".join(rng.choice(string.digits) for _ in range(rng.randrange(1, w + 1))), cls
+    if cls == "date":
+        # free text that happens to look like a date / time
+        y, m, d = rng.randrange(2014, 2050), rng.randrange(1, 13), rng.randrange(1, 29)
+        forms = [f"{y % 100:02d}{m:02d}{d:02d}", f"{y}{m:02d}{d:02d}", f"{y}-{m:02d}-{d:02d}", f"{y}{m:02d}{d:02d}120000", f"{y}-{m:02d}-{d:02d}T12:00:00"]
+        forms = [f for f in forms if len(f) <= w]
+        if forms:
+            return rng.choice(forms), cls
+        cls = "short"
     if cls == "full":
         n = w
     else:
